@@ -75,7 +75,7 @@ def splitter_roles(prog, fn):
                         continue
                     ty = x.local_ty(c.place["l"])
                     srcs = origins(x, c.place, transparent=())
-                    is_flag = any(o.kind in ("param", "upvar", "unknown") or (o.kind == "call" and callee_decl(o.data) in ("core::ops::index::Index::index",)) for o in srcs) and ty.replace("&", "") == "bool"
+                    is_flag = any(o.kind in ("param", "upvar", "unknown") or (o.kind == "call" and callee_decl(o.data) in ("core::ops::index::Index::index", "core::iter::traits::iterator::Iterator::next")) for o in srcs) and ty.replace("&", "") == "bool"
                     is_cmp = any(o.kind == "call" and callee_decl(o.data) in ("core::cmp::PartialEq::eq",) for o in srcs)
                     if is_flag:
                         found = "members" if c.is_true() else ("complement" if c.is_false() else None)
@@ -156,7 +156,7 @@ def rule_blocking(ctx):
             if callee_matches(callee_of(s), r"sat_solver::SatSolver::solve_under_assumptions$"):
                 n2 += 1
                 lits = tags.literals_of(prog, b, s.node["args"][1], tags_list_params(b))
-                r.check(any(l.role == "SEL" and l.pos and "state_data" in str(l.note) for l in lits), b.id + "|same-range", "assumptions:%s" % lits, "the same-range search assumes the computer's selector positively", "the same-range search does not switch the blocking clauses off (positive selector missing)", s.loc())
+                r.check(any(l.role == "SEL" and l.pos and ".selector" in str(l.note) for l in lits), b.id + "|same-range", "assumptions:%s" % lits, "the same-range search assumes the computer's selector positively", "the same-range search does not switch the blocking clauses off (positive selector missing)", s.loc())
     r.floor(n2, 1, "same-range searches")
 
 
